@@ -128,7 +128,8 @@ def install_gate(root, rfd, wfd, contended):
                 g.outcome(err=_errname(e))
                 raise
             if name == "listdir":
-                g.outcome(err=None, names=sorted(os.fsdecode(x) for x in res))
+                res = sorted(res)       # listing order is controlled: a contended directory is always presented sorted
+                g.outcome(err=None, names=[os.fsdecode(x) for x in res])
             elif name in ("stat", "lstat"):
                 import stat as _st
                 g.outcome(err=None, kind="dir" if _st.S_ISDIR(res.st_mode) else "file")
